@@ -111,6 +111,7 @@ Section Pass.
         let a := if pad =? 0 then a0 else a0 + (align - pad) in
         if vendor then
           if r_max it <? a + size then Done (inr (it, End (- EINVAL))) else
+          let* _ := rd_bytes rd 4 a in
           let* vnslen := rd_le rd 2 (a + 4) in
           let size' := size + vnslen in
           let a' := a + size' in
@@ -159,6 +160,7 @@ Section Pass.
     destruct (r_arg it) as [a0|]; [|reflexivity].
     destruct (r_idx it mod 32 =? c_IEEE80211_RADIOTAP_VENDOR_NAMESPACE).
     - match goal with |- context [if ?b then _ else _] => destruct b end; [reflexivity|].
+      match goal with |- context [rd_bytes rd 4 ?x] => destruct (rd_bytes rd 4 x) end; cbn [bind]; try reflexivity.
       match goal with |- context [rd_le rd 2 ?x] => destruct (rd_le rd 2 x) end; cbn [bind]; try reflexivity.
       match goal with |- context [if ?b then _ else _] => destruct b end; reflexivity.
     - match goal with |- context [if r_max it <? ?x then _ else _] => destruct (r_max it <? x) end; [reflexivity|].
@@ -322,6 +324,7 @@ Section Safe.
       pose proof (align_ge 2 a0 ltac:(lia) Harg) as Hal.
       remember (if a0 mod 2 =? 0 then a0 else a0 + (2 - a0 mod 2)) as a eqn:Ha.
       destruct (r_max it <? a + 6) eqn:E1; [exact I|].
+      rewrite (rd_bytes_agrees rd buf Hag 4 a) by lia. cbn [bind].
       rewrite (rd_le16 buf rd Hag) by lia. cbn [bind].
       pose proof (le16_nonneg buf Hwf (a + 4)) as Hv.
       destruct (r_max it <? a + (6 + le16 buf (a + 4))) eqn:E2; [exact I|].
